@@ -188,7 +188,10 @@ class CompilerArgs(T.MutableSequence[str]):
         del self._container[index]
 
     def __len__(self) -> int:
-        return len(self._container) + len(self.pre) + len(self.post)
+        # pending entries are not de-duplicated yet: merge them first so that
+        # len(x) == len(list(x)) (reversed(), index() etc. rely on it)
+        self.flush_pre_post()
+        return len(self._container)
 
     def insert(self, index: int, value: str) -> None:
         self.flush_pre_post()
